@@ -32,6 +32,7 @@ static void setup(void)
 typedef struct fecfg {
     int samprate, frate, nfft, lifter, remove_noise, remove_dc, logspec, smoothspec, nfilt, ncep;
     double wlen, alpha, upperf, lowerf;
+    int other_endian;   /* samples are supplied in the non-native byte order and input_endian says so */
     const char *transform;
 } fecfg_t;
 
@@ -55,6 +56,7 @@ static fe_t *make_fe(const fecfg_t *c)
     config_set_float(cf, "upperf", c->upperf);
     config_set_float(cf, "lowerf", c->lowerf);
     config_set_bool(cf, "dither", 0);
+    if (c->other_endian) { union { uint16_t u; unsigned char b[2]; } e; e.u = 1; config_set_str(cf, "input_endian", e.b[0] ? "big" : "little"); }
     vh_ctx("fe_init");
     fe = fe_init(cf);
     config_free(cf);
@@ -63,6 +65,7 @@ static fe_t *make_fe(const fecfg_t *c)
 
 static void random_cfg(vh_rng *r, fecfg_t *c)
 {
+    c->other_endian = 0;
     static const int rates[] = { 8000, 16000, 16000, 44100, 11025 };
     static const int frates[] = { 100, 100, 50, 200, 125 };
     static const double wlens[] = { 0.025625, 0.025625, 0.02, 0.032, 0.01, 0.05 };
@@ -130,7 +133,7 @@ static void run(long i, vh_rng *r)
     fecfg_t c; fe_t *fe;
     int shift, size, dim, nvar, v, tries = 0;
     long N, j;
-    int16_t *sig; float *fsig;
+    int16_t *sig, *sig_sw = NULL; float *fsig, *fsig_sw = NULL; fe_t *fe_sw = NULL;
     frames_t ref; mfcc_t **buf;
     long expect;
     uint64_t sigh;
@@ -184,6 +187,14 @@ static void run(long i, vh_rng *r)
         long fixed = 0;
         int stuck = 0;
         char vdesc[200];
+        /* the same samples in the other byte order, through a front end told so (created on first use) */
+        int swapv = vh_chance(r, 0.15); fe_t *vfe = fe; int16_t *vsig = sig; float *vfsig = fsig;
+        if (swapv && !fe_sw) {
+            fecfg_t c2 = c; long q; c2.other_endian = 1; fe_sw = make_fe(&c2);
+            sig_sw = (int16_t *)malloc(sizeof(int16_t) * (size_t)(N + 1)); fsig_sw = (float *)malloc(sizeof(float) * (size_t)(N + 1));
+            for (q = 0; q < N; ++q) { unsigned char *d = (unsigned char *)&sig_sw[q], *o = (unsigned char *)&sig[q]; d[0] = o[1]; d[1] = o[0]; d = (unsigned char *)&fsig_sw[q]; o = (unsigned char *)&fsig[q]; d[0] = o[3]; d[1] = o[2]; d[2] = o[1]; d[3] = o[0]; }
+        }
+        if (swapv && fe_sw) { vfe = fe_sw; vsig = sig_sw; vfsig = fsig_sw; vh_count("variants_other_byte_order", 1); } else swapv = 0;
         memset(&got, 0, sizeof(got)); got.dim = dim;
         switch (style) {
         case 0: fixed = 1; if (N > 6000) fixed = 3; break;
@@ -195,23 +206,23 @@ static void run(long i, vh_rng *r)
         default: fixed = 0; break;                                  /* random chunk lengths */
         }
         if (fixed < 1 && style < 6) fixed = 1;
-        snprintf(vdesc, sizeof(vdesc), "%s chunks=%s%ld limit=%d fe_end_room=%d", isfloat ? "float32" : "int16", fixed ? "fixed:" : "random", fixed, limit, end_room);
-        fe_start(fe);
+        snprintf(vdesc, sizeof(vdesc), "%s%s chunks=%s%ld limit=%d fe_end_room=%d", swapv ? "byte-swapped " : "", isfloat ? "float32" : "int16", fixed ? "fixed:" : "random", fixed, limit, end_room);
+        fe_start(vfe);
         while (pos < N && !stuck) {
             long len = fixed ? fixed : (vh_chance(r, 0.3) ? vh_range(r, 1, 5) : vh_chance(r, 0.5) ? vh_range(r, 1, 2 * size) : vh_range(r, 1, 20000));
             size_t n; int16_t *p16; float *pf; long guard = 0;
             if (pos + len > N) len = N - pos;
-            n = (size_t)len; p16 = sig + pos; pf = fsig + pos;
+            n = (size_t)len; p16 = vsig + pos; pf = vfsig + pos;
             /* the documented loop */
             while (n) {
                 size_t before = n; int k;
                 vh_ctx(isfloat ? "fe_process_float32" : "fe_process_int16");
-                if (isfloat) k = fe_process_float32(fe, &pf, &n, buf, limit);
-                else k = fe_process_int16(fe, &p16, &n, buf, limit);
+                if (isfloat) k = fe_process_float32(vfe, &pf, &n, buf, limit);
+                else k = fe_process_int16(vfe, &p16, &n, buf, limit);
                 ++ncalls;
                 if (k < 0 || k > limit) { vh_viol("bad_return", "fe_process returned %d with limit %d (%s)", k, limit, vdesc); stuck = 1; break; }
                 if (n > before) { vh_viol("nsamps_grew", "remaining samples grew from %zu to %zu (%s)", before, n, vdesc); stuck = 1; break; }
-                if ((isfloat ? (long)(pf - (fsig + pos)) : (long)(p16 - (sig + pos))) != (long)(len - (long)n)) { vh_viol("pointer_count_mismatch", "pointer advanced inconsistently with the remaining count (%s)", vdesc); stuck = 1; break; }
+                if ((isfloat ? (long)(pf - (vfsig + pos)) : (long)(p16 - (vsig + pos))) != (long)(len - (long)n)) { vh_viol("pointer_count_mismatch", "pointer advanced inconsistently with the remaining count (%s)", vdesc); stuck = 1; break; }
                 frames_add(&got, buf, k);
                 if (k == 0 && n == before && ++guard > 3) { vh_viol("no_progress", "fe_process made no progress with %zu samples left (%s)", n, vdesc); stuck = 1; break; }
                 if (k == limit && limit < 64) vh_count("calls_output_limited", 1);
@@ -223,7 +234,7 @@ static void run(long i, vh_rng *r)
         if (!stuck) {
             int k;
             vh_ctx("fe_end");
-            k = fe_end(fe, buf, end_room);
+            k = fe_end(vfe, buf, end_room);
             frames_add(&got, buf, k);
             if (consumed != N) vh_viol("not_all_consumed", "%ld of %ld samples consumed (%s)", consumed, N, vdesc);
             if (got.n != ref.n) {
@@ -249,8 +260,8 @@ static void run(long i, vh_rng *r)
     }
     ckd_free_2d(buf);
     if (ref.n > 0) vh_nontrivial("%016llx", (unsigned long long)sigh);
-    free(ref.v); free(sig); free(fsig);
-    fe_free(fe);
+    free(ref.v); free(sig); free(fsig); free(sig_sw); free(fsig_sw);
+    fe_free(fe); if (fe_sw) fe_free(fe_sw);
     if (vh_have_lsan() && (i % 100) == 99 && vh_leak_check()) vh_viol("LSAN", "leak after fe_free");
 }
 
